@@ -60,7 +60,7 @@ def build_trees(C, n_random, wire_ok=False, corpus=True, seed_shift=0):
 
 def run_entries(C, runner, entries, env_extra=None):
     """entries: list of dict(name, tree, jobs, [seed]) -> adds 'result'"""
-    payload = [dict(id=k, files=tree_xml(e['tree']), jobs=e.get('jobs', []), seed=e.get('seed', k), want_sources=e.get('want_sources', False))
+    payload = [dict(id=k, files=tree_xml(e['tree']), jobs=e.get('jobs', []), seed=e.get('seed', k), want_sources=e.get('want_sources', False), reuse=e.get('reuse', False))
                for k, e in enumerate(entries)]
     t0 = time.time()
     res = runner.run(payload, env_extra=env_extra)
@@ -235,11 +235,11 @@ def impl_roundtrip_ok(job, out):
 
 def run_c01_cases(name, items, timeout=900):
     """items: list of (tree, [(cls, value, impl_ok)]) -> list of (n_in_domain, failing_in_domain, disagreeing)"""
-    os.makedirs(os.path.join(COQ, 'Cases'), exist_ok=True)
+    os.makedirs(CASES, exist_ok=True)
     PER = 10
     files = []
     for off in range(0, len(items), PER):
-        fn = os.path.join(COQ, 'Cases', f"{name}_{off // PER}.v")
+        fn = os.path.join(CASES, f"{name}_{off // PER}.v")
         with open(fn, 'w') as f:
             f.write("From EO Require Import Prelude.Py Prelude.Corr Model.Spec Model.Elab Model.GenHarness Model.GenHarnessB.\nOpen Scope string_scope.\nOpen Scope list_scope.\nOpen Scope Z_scope.\n")
             for k, (tree, cases) in enumerate(items[off:off + PER]):
@@ -268,32 +268,160 @@ def run_c01_cases(name, items, timeout=900):
 
 # ------------------------------------------------------------------------------------------------ replay
 def gen_replay(path):
-    """re-run the recorded input (specification XML + class + object / bytes) on the current /repo working tree"""
+    """Re-run the recorded input (specification XML + class + object / bytes) on the current /repo working tree and decide it against the
+    reference semantics (Model/Elab.v, Ser.v, Deser.v evaluated by coqc): exit 1 while the implementation still differs from what the
+    specification prescribes on this input (or the generated package is unusable), 0 once it agrees."""
     r = json.load(open(path))
     inp = r.get('input', {})
-    if 'xml' not in inp:
-        print("replay:", json.dumps(r.get('broken', r.get('what')))[:1500])
-        return 1
+    if not isinstance(inp, dict) or 'xml' not in inp:
+        return replay_broken(r, r.get('property', 'C02'))
     S = Scratch()
     runner = GenRunner(S, workers=1)
     jobs = []
-    if 'value' in inp and 'cls' in inp:
+    if inp.get('value') is not None and 'cls' in inp:
         jobs.append(dict(op='ser', cls=inp['cls'], value=inp['value'], san=bool(inp.get('san', False)), then_deser=True, mutants=0, fail_at=inp.get('fail_at'), fail_base=inp.get('fail_base')))
-    if 'data' in inp and 'cls' in inp:
+    if inp.get('data') is not None and 'cls' in inp:
         jobs.append(dict(op='deser', cls=inp['cls'], data=inp['data'], chunked=bool(inp.get('chunked', False)), fail_at=inp.get('fail_at'), fail_base=inp.get('fail_base')))
-    res = runner.run([dict(id=0, files=inp['xml'], jobs=jobs)])[0]
+    res = runner.run([dict(id=0, files=inp['xml'], jobs=jobs or [dict(op='deser', cls='(import only)', data=[], chunked=False)])])[0]
     print("generator:", "accepted" if res.get('accepted') else f"rejected ({res.get('error')})", res.get('import_error', ''))
-    still = False
+    still = bool(res.get('import_error')) or 'driver_error' in res
+    cases = []
     for job, out in zip(jobs, res.get('results', [])):
         show = {k: v for k, v in out.items() if k != 'deser'}
         print(job['op'], job['cls'], '->', json.dumps(show)[:1200])
-        for d in out.get('deser', [])[:1]:
-            print("  then deserialize ->", json.dumps(d)[:1200])
-        obs = r.get('observed')
-        if obs and all(out.get(k) == obs.get(k) for k in ('res', 'bytes', 'mode', 'pos') if k in obs):
+        if 'res' not in out:
+            continue
+        injected = bool(job.get('fail_at'))
+        if job['op'] == 'ser':
+            if injected:
+                still = still or out['mode'] != job['san']          # C15: the mode must be what it was, however the call ended
+            else:
+                cases.append(ser_case(job, out))
+            for d in out.get('deser', [])[:1]:
+                print("  then deserialize ->", json.dumps(d)[:1200])
+                if not d.get('heavy'):
+                    cases.append(deser_case(job['cls'], d))
+        elif job['op'] == 'deser':
+            if injected:
+                still = still or out['mode'] != job['chunked']
+            elif not out.get('heavy'):
+                cases.append(deser_case(job['cls'], out))
+            if out['res'][0] == 'err' and out['res'][1] == 'EFuel':
+                still = True
+    try:
+        fl = run_tree_cases('replay', [(xml_to_tree(inp['xml']), bool(res.get('accepted')), cases)])[0]
+        if fl:
             still = True
-    if r.get('observed') is None:
-        print("recorded:", r.get('what', '')[:600])
-        return 1
-    print("replay:", "the recorded behaviour is reproduced" if still else "the recorded behaviour is NOT reproduced on the current tree")
+            print("reference semantics disagrees on:", [('accept/reject' if i < 0 else cases[i][:300]) for i in fl[:3]])
+    except CoqCaseError as ex:
+        print("could not evaluate the reference semantics:", str(ex)[-300:])
+        still = True
+    print("recorded:", r.get('what', '')[:400])
+    print("replay:", "the implementation still deviates on this input" if still else "property holds on this input (implementation = reference semantics)")
     return 1 if still else 0
+
+
+# ------------------------------------------------------------------------------------------------ structural tie (translation validation)
+def recover_stream(C, entries, name, per_file=40, timeout=600):
+    """For every accepted entry that carries result['sources'] (the driver returns them for entries run with want_sources=True
+    and no jobs): recover, with tools/gen2instr.py, the instruction lists of serialize / deserialize of every generated class
+    from the SOURCE TEXT, and compare them in Coq (Model/Recover.v, vm_compute) with sd_body of the same class in `elab tree`;
+    also the generated enum members / packet identities with pk_enums / pk_packets.
+    Every Unrecognised statement and every class that differs is reported as a broken correspondence of stream 'recover'.
+    Returns the list of problems: dict(tree, cls, what, ...).
+    Typical use inside a check (about 8 s for 40 trees / 300 classes, one or two coqc calls):
+        src = [dict(name=t['name'], tree=t['tree'], jobs=[], want_sources=True) for t in trees]
+        run_entries(C, runner, src)
+        recover_stream(C, src, 'c02')"""
+    import gen2instr
+    t0 = time.time()
+    items, problems = [], []
+    n_classes = 0
+    for e in entries:
+        r = e.get('result') or {}
+        if not r.get('accepted') or r.get('sources') is None:
+            continue
+        if e['name'].startswith('mini-eo-literals'):
+            continue      # literal text is compared exactly by Recover.v; this tree spells numerals non-canonically on purpose (checked by E1 and by importing)
+        try:
+            rec = gen2instr.recover_sources(r['sources'])
+        except Exception as ex:          # the recogniser itself failed: fail closed
+            problems.append(dict(tree=e['name'], cls='<package>', what='recogniser crashed', detail=f"{type(ex).__name__}: {ex}"))
+            continue
+        bad = set()
+        for u in rec['unrecognised']:
+            bad.add(u.cls.split('.')[0] if u.method != 'module' else '*')      # an unreadable module: its classes are all missing
+            problems.append(dict(tree=e['name'], cls=u.cls, what='unrecognised', method=u.method, lineno=u.lineno, why=u.why, dump=u.dump[:600]))
+        try:
+            terms = (gen2instr.coq_classes(rec['classes']),
+                     clist(sorted(rec['enums'].items()), lambda kv: f"({cs(kv[0])}, {clist(kv[1], lambda nv: f'({cs(nv[0])}, {cz(nv[1])})')})"),
+                     clist(rec['packets'], lambda p: f"({cs(p[0])}, {cz(p[1])}, {cz(p[2])})"),
+                     coq_tree(e['tree']))
+        except (ValueError, AssertionError) as ex:      # text that the Coq terms of this harness cannot carry (non-ASCII): fail closed
+            problems.append(dict(tree=e['name'], cls='<package>', what='unrecognised', why=f"not expressible as a Coq term: {ex}"))
+            continue
+        n_classes += len(rec['classes'])
+        items.append((e, rec, terms, bad))
+    os.makedirs(CASES, exist_ok=True)
+    procs = []
+    for off in range(0, len(items), per_file):
+        fn = os.path.join(CASES, f"{name}_recover_{off // per_file}.v")
+        with open(fn, 'w') as f:
+            f.write("From EO Require Import Prelude.Py Prelude.Corr Model.Spec Model.Elab Model.Recover.\n"
+                    "Open Scope string_scope.\nOpen Scope list_scope.\nOpen Scope Z_scope.\n")
+            for k, (e, rec, terms, bad) in enumerate(items[off:off + per_file]):
+                f.write(f"Definition t{k} : list rfile := {terms[3]}.\n")
+                f.write(f"Definition r{k} : recovered :=\n  {terms[0]}.\n")
+                f.write(f"Eval vm_compute in (recover_detail t{k} r{k}).\n")
+                f.write(f"Eval vm_compute in (recover_meta t{k} {terms[1]} {terms[2]}).\n")
+        while len([p for p in procs if p[0].poll() is None]) >= 4:
+            time.sleep(0.05)
+        p = subprocess.Popen(['bash', '-c', f'ulimit -s unlimited 2>/dev/null || ulimit -s 1000000; exec timeout {timeout} coqc -Q {COQ} EO -w -all {fn}'],
+                             stdout=subprocess.PIPE, stderr=subprocess.STDOUT, text=True, cwd=COQ)
+        procs.append((p, fn, off, min(per_file, len(items) - off)))
+    for p, fn, off, n in procs:
+        out, _ = p.communicate()
+        det = re.findall(r'=\s*(\[.*?\])\s*:\s*list \(string \* string\)', out, flags=re.S)
+        meta = re.findall(r'=\s*(\[[^\]]*\])\s*:\s*list string', out, flags=re.S)
+        if p.returncode != 0 or len(det) != n or len(meta) != n:
+            problems.append(dict(tree='*', cls='<coq>', what='coqc failed on ' + fn, detail=out[-800:]))
+            continue
+        for k in range(n):
+            e, rec, terms, bad = items[off + k]
+            for cls, what in re.findall(r'\("([^"]*)",\s*"([^"]*)"\)', det[k]):
+                if what == 'missing' and (cls.split('.')[0] in bad or '*' in bad):
+                    continue          # already reported as unrecognised
+                r = next((c for c in rec['classes'] if c['name'] == cls), None)
+                pr = dict(tree=e['name'], cls=cls, what='mismatch: ' + what)
+                if r is not None:
+                    pr['recovered'] = {s: [gen2instr.coq_instr(i) for i in r[s]] for s in 'SD'}
+                problems.append(pr)
+            for cls in re.findall(r'"([^"]*)"', meta[k]):
+                if cls in bad or '*' in bad:
+                    continue          # an unrecognised packet / enum: already reported
+                problems.append(dict(tree=e['name'], cls=cls, what='mismatch: enum members / packet identity'))
+    # the model's view of the first few mismatching classes, for the report
+    shown = 0
+    for pr in problems:
+        if pr['what'].startswith('mismatch: ') and pr.get('recovered') and shown < 3:
+            e = next(x for x in entries if x['name'] == pr['tree'])
+            fn = os.path.join(CASES, f"{name}_recover_show.v")
+            with open(fn, 'w') as f:
+                f.write("From EO Require Import Prelude.Py Prelude.Corr Model.Spec Model.Elab Model.Recover.\n"
+                        "Open Scope string_scope.\nOpen Scope list_scope.\nOpen Scope Z_scope.\n")
+                f.write(f"Definition t : list rfile := {coq_tree(e['tree'])}.\nEval vm_compute in (recover_show t {cs(pr['cls'])}).\n")
+            rc, out = sh(['timeout', '120', 'coqc', '-Q', COQ, 'EO', '-w', '-all', fn], cwd=COQ)
+            pr['model'] = re.sub(r'\s+', ' ', out)[-2500:]
+            shown += 1
+    for pr in problems:
+        if pr['what'].startswith('mismatch') or pr['what'] == 'unrecognised':
+            C.disagreement('recover', dict(tree=pr['tree'], cls=pr['cls'], what=pr['what'], method=pr.get('method'), lineno=pr.get('lineno'), why=pr.get('why')),
+                           model=pr.get('model'), impl=pr.get('recovered') or pr.get('dump'))
+        else:
+            C.broken.append(dict(kind='correspondence', stream='recover', msg=f"{pr['what']}: {pr.get('detail', '')}"[:1000]))
+    C.stream('corr.recover', n_classes, n_classes, sample=(dict(tree=items[0][0]['name'], cls=items[0][1]['classes'][0]['name'],
+                                                               S=[gen2instr.coq_instr(i) for i in items[0][1]['classes'][0]['S']])
+                                                          if items and items[0][1]['classes'] else None))
+    C.cov.setdefault('trees', {})['recover'] = dict(trees=len(items), classes=n_classes, problems=len(problems))
+    log(f"[{C.pid}] recover: {n_classes} classes of {len(items)} trees, {len(problems)} problem(s), {time.time() - t0:.1f}s")
+    return problems
